@@ -3,7 +3,7 @@ use std::{marker::PhantomData, num::NonZeroU16, rc::Rc, task::Context};
 
 use ntex_service::{Pipeline, Service, ServiceCtx};
 use ntex_util::future::{Either, join};
-use ntex_util::{HashSet, services::inflight::InFlightService};
+use ntex_util::HashSet;
 
 use crate::error::{
     DecodeError, DispatcherError, PayloadError, ProtocolError, SpecViolation,
@@ -11,7 +11,7 @@ use crate::error::{
 use crate::v3::codec::{self, Decoded, Encoded, Packet};
 use crate::v3::shared::{Ack, MqttShared};
 use crate::v3::{control::ProtocolMessageKind, publish::Publish};
-use crate::{payload::Payload, payload::PayloadStatus, payload::PlSender};
+use crate::{inflight::InFlightServiceImpl, payload::Payload, payload::PayloadStatus, payload::PlSender};
 
 use super::control::{ProtocolMessage, ProtocolMessageAck};
 
@@ -28,9 +28,11 @@ where
     T: Service<Publish, Response = Either<(), Publish>, Error = E> + 'static,
     C: Service<ProtocolMessage, Response = ProtocolMessageAck, Error = E> + 'static,
 {
-    // limit number of in-flight messages
-    InFlightService::new(
-        inflight,
+    // limit number of in-flight messages, 0 disables the limit; chunks of
+    // a payload that is being streamed are not held back by the limit
+    InFlightServiceImpl::new(
+        u16::try_from(inflight).unwrap_or(u16::MAX),
+        0,
         Dispatcher::new(
             sink,
             publish,
